@@ -66,6 +66,30 @@ def c05_case(draw):
         rs_ = draw(st.lists(st.sampled_from(sorted({c[0] for c in pool})),
                             min_size=3, max_size=5, unique=True))
         pool = [c for c in pool if c[0] in rs_]
+    twin = None
+    if cname in ('OmahaHoldemHand', 'OmahaEightOrBetterLowHand') and \
+            draw(st.integers(0, 7)) == 0:
+        # the same two ranks suited twice (AsKs AhKh) with a board heavy in
+        # one of the two suits: equal-looking hole pairs are not equivalent
+        r1, r2 = draw(st.lists(st.sampled_from('23456789TJQKA'), min_size=2,
+                               max_size=2, unique=True))
+        s1, s2 = draw(st.lists(st.sampled_from(SUITS), min_size=2,
+                               max_size=2, unique=True))
+        twin = [r1 + s1, r2 + s1, r1 + s2, r2 + s2]
+        suited = [c for c in DECK52 if c[1] == s2 and c not in twin]
+        rest = [c for c in DECK52 if c not in twin]
+        k = draw(st.integers(3, 5))
+        board = draw(st.lists(st.sampled_from(suited), min_size=3,
+                              max_size=k, unique=True))
+        while len(board) < k:
+            c = draw(st.sampled_from(rest))
+            if c not in board:
+                board.append(c)
+        forms = ['str', 'str', 'spaced', 'tuple', 'list', 'iter', 'gen']
+        return dict(cls=cname, hole=draw(st.permutations(twin)),
+                    board=draw(st.permutations(board)),
+                    hole_form=draw(st.sampled_from(forms)),
+                    board_form=draw(st.sampled_from(forms)))
     if cname == 'GreekHoldemHand':
         nh = 2
     elif cname in ('OmahaHoldemHand', 'OmahaEightOrBetterLowHand'):
